@@ -243,7 +243,7 @@ class C07(common.Spec):
 
     def emit(self, case, obs):
         if obs['harness'] is not None:
-            raise common.Broken(f"C07 harness problem: {obs['harness']} on {str(case)[:600]}")
+            raise common.HarnessProblem(f"C07 harness problem: {obs['harness']} on {str(case)[:600]}")
         recalcs = clist([f"(Build_recalc_obs {cnat(r['cfg'])} {c_reading(r['now'])} {cbool(bool(r['out']))})"
                          for r in obs['recalcs'][:1500]])
 
